@@ -1081,7 +1081,7 @@ func (c *cliFront) plan(h *heapRun, o *obj, st Step) (*cliCall, string) {
 		if !printable(repl) {
 			return nil, "repl"
 		}
-		argv := []string{"mask", "--start=" + strconv.Itoa(ai(a, "start")), "--length=" + strconv.Itoa(ai(a, "len")), "--replace=" + string(repl)}
+		argv := []string{"mask", "--start=" + strconv.Itoa(ai(a, "start")), "--length=" + strconv.Itoa(hugeLen(ai(a, "len"))), "--replace=" + string(repl)}
 		if len(ref) != 0 {
 			argv = append(argv, "--ref-seq="+string(ref))
 		}
@@ -1136,7 +1136,7 @@ func (c *cliFront) plan(h *heapRun, o *obj, st Step) (*cliCall, string) {
 		if !needsAlign() || !printable(nm) {
 			return nil, "names"
 		}
-		return &cliCall{argv: []string{"subseq", "--ref-seq=" + string(nm), "--start=" + strconv.Itoa(ai(a, "start")), "--length=" + strconv.Itoa(ai(a, "len"))}}, ""
+		return &cliCall{argv: []string{"subseq", "--ref-seq=" + string(nm), "--start=" + strconv.Itoa(ai(a, "start")), "--length=" + strconv.Itoa(hugeLen(ai(a, "len")))}}, ""
 	case "Split":
 		if !needsAlign() {
 			return nil, "bag"
@@ -1187,12 +1187,12 @@ func (c *cliFront) plan(h *heapRun, o *obj, st Step) (*cliCall, string) {
 		if !needsAlign() {
 			return nil, "bag"
 		}
-		return &cliCall{argv: []string{"subseq", "--reverse", "--start=" + strconv.Itoa(ai(a, "start")), "--length=" + strconv.Itoa(ai(a, "len"))}}, ""
+		return &cliCall{argv: []string{"subseq", "--reverse", "--start=" + strconv.Itoa(ai(a, "start")), "--length=" + strconv.Itoa(hugeLen(ai(a, "len")))}}, ""
 	case "SubAlign":
 		if !needsAlign() {
 			return nil, "bag"
 		}
-		return &cliCall{argv: []string{"subseq", "-s", strconv.Itoa(ai(a, "start")), "-l", strconv.Itoa(ai(a, "len"))}}, ""
+		return &cliCall{argv: []string{"subseq", "-s", strconv.Itoa(ai(a, "start")), "-l", strconv.Itoa(hugeLen(ai(a, "len")))}}, ""
 	case "Replace":
 		old, nw := abytes(a, "old"), abytes(a, "new")
 		if !printable(old) || !printable(nw) {
